@@ -16,6 +16,24 @@ CHECKS = {
             'statement about all coefficient values of all enumerated programs, not a sample.',
             'Trusts kverif.ring.P (free commutative ring, self-tested) and the blade table checked by C01; programs beyond the bound (dense d>=5) are not covered.',
             '4 C02'),
+    'C01': (EX, 'bounded exhaustive enumeration of algebra configurations (signature orderings x start index x custom bases by deviation) x all blade pairs/triples',
+            'Every configuration up to the bound is constructed and its complete sign table is compared entry by entry with the word oracle and with the Clifford relations stated on the table itself.',
+            'Trusts kverif.oracle (bubble-sort word product, self-tested); bases of d>=4 beyond the deviation bound and d>=9 are not covered.', '4 C01'),
+    'C03': (EX, 'bounded exhaustive enumeration of programs (key-tuple pairs) x 7 operators x generic point evaluation',
+            'Same program space as C02 for op/ip/lc/rc/sp/cp/acp; reference terms are selected by the grades of the oracle words; derived identities checked on kingdon\'s own results.',
+            'Trusts kverif.ring.P and the blade table (C01).', '4 C03'),
+    'C04': (EX, 'bounded exhaustive enumeration of key tuples and grade selections x generic point evaluation',
+            'All ordered key tuples (d<=2), canonical subsets (d=3,4) and grade blocks up to d=8 for add/sub/neg/involutions/grade(); (anti)automorphism laws on generic operands.',
+            'Trusts kverif.ring.P; grade of a blade = length of its oracle word.', '4 C04'),
+    'C05': (EX, 'bounded exhaustive enumeration of configurations (incl. custom bases with reoriented pseudoscalar) and operand patterns x generic point evaluation',
+            'Every clause of the statement is evaluated with kingdon\'s own elementary operators (literal composition) and against the reference Hodge dual defined from J.',
+            'Trusts C02-C04 for the elementary operators used in the compositions.', '4 C05'),
+    'C09': (MC, 'explicit-state BFS over call histories of a live Algebra (state = canonical abstraction of its caches, every transition replayed on the real object) + stateless exploration of all thread interleavings up to a preemption bound under an own deterministic scheduler + enumeration of wrapper fault points',
+            'The reachable cache states of the listed alphabets are explored to fixpoint; every transition is an execution of the implementation compared with a fresh-algebra run; every schedule of the thread harnesses within the preemption bound is executed.',
+            'Soundness of state merging rests on the abstraction argument of DESIGN.md 3.3; thread switches are explored at line granularity in kingdon/*.py (polynomial.py excluded with a locality argument).', '4 C09'),
+    'C10': (MC, 'explicit-state search over call histories with generation-event counters (builtins.compile, do_codegen, do_compile observed from outside the repository)',
+            'All histories of the stated shapes over operators x key patterns x coefficient types are executed on fresh algebras; the invariant (no generation for a cached label, each label generated at most once, caches monotone) is evaluated on every transition.',
+            'Assumes every generation path ends in builtins.compile from a kingdon frame (un-attributed compiles are counted and reported).', '4 C10'),
 }
 
 PENDING = {
